@@ -157,7 +157,7 @@ def batch_alias(ev, mods, imps, subjects, acc):
             HUB.violation("C12", f"alias-batch:{d}", f"'should not ... anything' gave {a}, 'should not ... except themselves' gave {b} for subjects {subjects}", {"case": HUB.case})
 
 
-def regex_family(ev, mods, imps, rx, o, acc):
+def regex_family(ev, mods, imps, rx, o, acc, pre_drop=None):
     """Duality and decomposition also hold when one side is given by a regex (a batch): the subject of
     'S should import O' is the importer, the subject of 'O should be imported by S' the importee."""
     import re as _re
@@ -165,16 +165,31 @@ def regex_family(ev, mods, imps, rx, o, acc):
     s = ("regex", rx)
     if not any(_re.match(rx, m) for m in mods):
         return
-    case = {"kind": "regex_family", "mods": mods, "imps": imps, "rx": rx, "o": o}
+    case = {"kind": "regex_family", "mods": mods, "imps": imps, "rx": rx, "o": o, "pre_drop": pre_drop}
     HUB.case = case
+    pre = None
+    if pre_drop:
+        # every rule object of the family first sees a smaller architecture (one regex match missing): the laws speak
+        # about the rules, not about what a rule object happened to be applied to before
+        m2 = [m for m in mods if m != pre_drop and not m.startswith(pre_drop + ".")]
+        pre = build(m2, [(a, b) for a, b in imps if a in m2 and b in m2], check=False)
+        acc.count("regex_families_with_reused_rule_objects")
+
+    def apply(cfg):
+        r = mk_rule(cfg)
+        if pre is not None:
+            run(r, pre)
+        acc.evaluated()
+        return run(r, ev)[0]
+
     out = {}
     for verb in rrule.VERBS:
         for d in rrule.DIRS:
             for exc in (False, True):
-                out[("so", verb, d, exc)] = run(mk_rule(cfg_of(verb, d, exc, s, o)), ev)[0]
-                acc.evaluated()
+                out[("so", verb, d, exc)] = apply(cfg_of(verb, d, exc, s, o))
     for verb in ("should", "should_not"):
         for d in rrule.DIRS:
+            # the dual rule is a fresh object applied to this architecture only
             out[("os", verb, d)] = run(mk_rule(cfg_of(verb, d, False, o, s)), ev)[0]
             acc.evaluated()
     acc.count("regex_families")
@@ -346,7 +361,10 @@ def randomised(spec, acc):
                 names = [m for m in mods if m != "r"]
                 m = rnd.choice(names)
                 rx = rnd.choice([_re.escape(m) + r"(\..*)?$", _re.escape(m) + r"(\.[a-z_]+)?$", _re.escape(m.rsplit(".", 1)[0]) + r"\.[a-z_]+$"])
-                regex_family(ev, mods, imps, rx, rnd.choice(fs), acc)
+                o2 = rnd.choice(fs)
+                matched = [x for x in names if _re.match(rx, x) and not any(y != x and y.startswith(x + ".") for y in names) and not related(x, o2[1])]
+                pre_drop = rnd.choice(matched) if len([x for x in names if _re.match(rx, x)]) >= 2 and matched and rnd.random() < 0.5 else None
+                regex_family(ev, mods, imps, rx, o2, acc, pre_drop=pre_drop)
             n += 1
             if n % 97 == 1:
                 acc.sample({"kind": "family", "modules": mods, "imports": imps, "subject": s, "object": o, "added_for_monotonicity": edges})
@@ -359,7 +377,7 @@ def replay(case, acc):
         acc.mark_inconclusive("source-level monotonicity cases are replayed by re-running the check with the recorded seed")
         return
     if case["kind"] == "regex_family":
-        regex_family(build(mods, imps), mods, imps, case["rx"], tuple(case["o"]), acc)
+        regex_family(build(mods, imps), mods, imps, case["rx"], tuple(case["o"]), acc, pre_drop=case.get("pre_drop"))
         return
     if case["kind"] == "batch_alias":
         batch_alias(build(mods, imps), mods, imps, [tuple(x) for x in case["subjects"]], acc)
@@ -375,6 +393,8 @@ def floors(acc, tier):
     for law in ("law_duality", "law_negation", "law_decomposition", "law_alias", "law_monotonicity"):
         if acc.counters[law] < 1000:
             why.append(f"{law}: only {acc.counters[law]} instances checked")
+    if acc.counters["regex_families_with_reused_rule_objects"] < 30:
+        why.append(f"regex families with re-used rule objects: {acc.counters['regex_families_with_reused_rule_objects']}")
     if acc.counters["source_monotonicity_pairs"] < 50:
         why.append(f"source-level monotonicity pairs: {acc.counters['source_monotonicity_pairs']}")
     h = acc.hists.get("family_kind", {})
